@@ -46,10 +46,17 @@ func init() {
 		buf := append([]byte{0x92}, mpUint(ty)...)
 		buf = append(buf, body...)
 		set, err := macaroon.DecodeCaveats(buf)
-		if err != nil || len(set.Caveats) != 1 {
-			panic(fmt.Sprintf("UnregisteredMaker: %v", err))
+		if err == nil && len(set.Caveats) == 1 {
+			if _, ok := set.Caveats[0].(*macaroon.UnregisteredCaveat); ok {
+				return set.Caveats[0]
+			}
 		}
-		return set.Caveats[0]
+		if ty < 64 {
+			// this binary registers the number (or the body does not fit its type): build the value that a binary which
+			// does not register it would decode
+			return &macaroon.UnregisteredCaveat{Type: macaroon.CaveatType(ty), RawMsgpack: body}
+		}
+		panic(fmt.Sprintf("UnregisteredMaker: %v", err))
 	}
 }
 
